@@ -111,9 +111,10 @@ def plan(tier, seed):
                 # quick: full 108-vector product at every sixth reference time, the six covering vectors at the others
                 for o in (ALL_OPTS if (tier != "quick" or edge.index(ts) % 6 == 0) else SIX_OPTS):
                     yield ("call", t, ts, o, seed)
-        for t in k2:
+        for ti, t in enumerate(k2):
             for ts in k2_ts:
-                for i, o in enumerate(k2_opts):
+                # quick: the default vector for every text, the two extreme vectors (random scorer / constant scorer, both with relative_match_len 0.1) alternate
+                for i, o in enumerate(k2_opts if tier != "quick" else (EXTREME_OPTS[0], EXTREME_OPTS[1 + ti % 2])):
                     # 2-token texts: the stream is consumed separately under the default vector and through debug=True vectors;
                     # under the other vectors the single-result call (which drains the same stream internally) is exercised
                     yield ("call" if (i == 0 or tier != "quick") else "call1", t, ts, o, seed)
